@@ -7,6 +7,7 @@
    power-cut images of recorded REAL traces and opens each with the real code. *)
 From BC Require Import Store.Engine Store.Log Store.Cons Store.Inv Store.Refine Store.Merge Store.Theorems
   Store.Crash Store.CrashScript Store.CrashMerge Store.Power.
+From BC Require Resp.Frame Resp.Conn Resp.OverEngine Resp.ServerStore.
 Open Scope N_scope.
 
 (* 1. With sync=always, a set or delete appends one record and forces the file it appended to,
@@ -78,6 +79,18 @@ Theorem C09_durable : forall c, c_sync c = true -> forall ops s st0,
     exists n, (n <= length ops)%nat /\ img_ok_p img (abs (state_after c s ops n)).
 Proof. exact power_safe_script. Qed.
 Print Assumptions C09_durable.
+
+(* 4s. ... for the SERVER (Resp/ServerStore.v): whatever bytes a connection sends, in whatever pieces, the engine
+       operations its accepted commands consist of are such a script; with sync=always every power image of their
+       system calls opens to the map after a prefix of them, and at the end everything written is durable. *)
+Theorem C09_server_durable : forall c segs st0, c_sync c = true ->
+  let ops := Resp.OverEngine.script_of (Resp.Conn.read_all (Resp.Frame.fixed Resp.Frame.Release) segs []) in
+  synced st0 -> rep (fst st0) (s_dir init) -> trace_wf (snd (run c init ops)) ->
+  (exists st1, prun st0 (snd (run c init ops)) = Some st1 /\ synced st1 /\ rep (fst st1) (s_dir (fst (fst (run c init ops))))) /\
+  forall img, power_image_of st0 (snd (run c init ops)) img ->
+    exists n, (n <= length ops)%nat /\ img_ok_p img (abs (state_after c init ops n)).
+Proof. exact Resp.ServerStore.server_power_safe. Qed.
+Print Assumptions C09_server_durable.
 
 (* 5. ... sharply: a power failure during operation [o], after [ops1] returned, keeps all of [ops1]
       (and [o] entirely or not at all).  For a merge pass [o] the two maps are equal: a merge never
